@@ -443,10 +443,32 @@ def combiners(d, sn):
     return {b: sn.seed.get_submodule('b%d.sn_combiner' % b) for b in range(len(d['blocks']))}
 
 
-def set_alpha(d, sn, alphas, torch):
-    with torch.no_grad():
-        for b, c in combiners(d, sn).items():
-            c.alpha.copy_(torch.tensor(alphas[b], dtype=torch.float32))
+WRITE_METHODS = ('copy', 'data_assign', 'data_copy', 'data_index', 'new_param')
+
+
+def set_alpha(d, sn, alphas, torch, method='copy'):
+    """write the selection coefficients the ways user code does:
+    copy        with torch.no_grad(): alpha.copy_(t)
+    data_assign alpha.data = t
+    data_copy   alpha.data.copy_(t)
+    data_index  alpha.data[i] = t[i] for every i
+    new_param   combiner.alpha = nn.Parameter(t)   (same requires_grad)"""
+    for b, c in combiners(d, sn).items():
+        t = torch.tensor(alphas[b], dtype=torch.float32)
+        if method == 'copy':
+            with torch.no_grad():
+                c.alpha.copy_(t)
+        elif method == 'data_assign':
+            c.alpha.data = t
+        elif method == 'data_copy':
+            c.alpha.data.copy_(t)
+        elif method == 'data_index':
+            for i in range(len(alphas[b])):
+                c.alpha.data[i] = t[i]
+        elif method == 'new_param':
+            c.alpha = torch.nn.Parameter(t, requires_grad=c.alpha.requires_grad)
+        else:
+            raise ValueError(method)
 
 
 def gen_alpha(rng, n, winner=None, tie=False):
